@@ -248,6 +248,21 @@ partial def loop (useSpec : Bool) (h : IO.FS.Stream) (out : IO.FS.Stream) (cur :
       out.putStrLn ("values=" ++ ",".intercalate (vs.map toString))
     | _, _, _ => out.putStrLn "bad-op"
     loop useSpec h out cur bad
+  | ["logic", op, a, b] =>
+    -- LOGICAL operands t / f / u: model = Python's reading of the emitted operator, spec = ISO 10303-11 12.4
+    let p3 : String → Option StepModel.GenPy.Body.L3 := fun x => match x with | "t" => some .t | "f" => some .f | "u" => some .u | _ => none
+    let sh : StepModel.GenPy.Body.L3 → String := fun x => match x with | .t => "true" | .f => "false" | .u => "unknown"
+    match p3 a, p3 b with
+    | some a, some b =>
+      let r := match op, useSpec with
+        | "and", false => some (StepModel.GenPy.Body.pyAnd3 a b) | "and", true => some (StepModel.GenPy.Spec.Body.and3 a b)
+        | "or", false => some (StepModel.GenPy.Body.pyOr3 a b) | "or", true => some (StepModel.GenPy.Spec.Body.or3 a b)
+        | "xor", false => some (StepModel.GenPy.Body.pyXor3 a b) | "xor", true => some (StepModel.GenPy.Spec.Body.xor3 a b)
+        | "not", false => some (StepModel.GenPy.Body.pyNot3 a) | "not", true => some (StepModel.GenPy.Spec.Body.not3 a)
+        | _, _ => none
+      out.putStrLn (match r with | some v => "value=" ++ sh v | none => "bad-op")
+    | _, _ => out.putStrLn "bad-op"
+    loop useSpec h out cur bad
   | "func" :: params :: args :: toks =>
     out.putStrLn ((BodyDrv.funcReply useSpec params args toks).getD "bad-op")
     loop useSpec h out cur bad
